@@ -93,6 +93,7 @@ type logEnt struct {
 	Kind string      `json:"kind"` // send | cleanup
 	S    int         `json:"s"`
 	Msg  interface{} `json:"msg,omitempty"`
+	Op   string      `json:"op,omitempty"` // probe mode: outer | inner
 }
 
 type world struct {
@@ -117,7 +118,22 @@ type hsub struct {
 	nclean int64 // atomic
 }
 
+// linger keeps a free-running callback busy for a moment: the application code a subscriber runs on a
+// delivery or a clean-up takes time, and whatever the registry allows to happen meanwhile should get the
+// chance to happen. (Where the callback runs inside the registry's critical section nothing can.)
+var lingerCount int64
+
+func linger() {
+	runtime.Gosched()
+	if atomic.AddInt64(&lingerCount, 1)%3 == 0 {
+		time.Sleep(150 * time.Microsecond)
+	}
+}
+
 func (h *hsub) Send(value interface{}) error {
+	if h.pure || activeStress != nil {
+		linger()
+	}
 	if h.pure {
 		n := atomic.AddInt64(&h.nsend, 1)
 		if h.failAt != 0 && int(n) == h.failAt {
@@ -128,24 +144,34 @@ func (h *hsub) Send(value interface{}) error {
 	h.w.mu.Lock()
 	h.sends++
 	n := h.sends
-	h.w.log = append(h.w.log, logEnt{Kind: "send", S: h.s, Msg: value})
+	h.w.log = append(h.w.log, logEnt{Kind: "send", S: h.s, Msg: value, Op: probePhase()})
 	h.w.mu.Unlock()
+	probePoint("send", h.s)
 	if h.failAt != 0 && n == h.failAt {
 		return fmt.Errorf("subscriber %d fails on delivery %d", h.s, n)
 	}
 	return nil
 }
 
-func (h *hsub) Match(id string) bool { return h.pat == "*" || h.pat == id }
+func (h *hsub) Match(id string) bool {
+	if !h.pure {
+		probePoint("match", h.s)
+	}
+	return h.pat == "*" || h.pat == id
+}
 
 func (h *hsub) Unsubscribe() {
+	if h.pure || activeStress != nil {
+		linger()
+	}
 	if h.pure {
 		atomic.AddInt64(&h.nclean, 1)
 		return
 	}
 	h.w.mu.Lock()
-	h.w.log = append(h.w.log, logEnt{Kind: "cleanup", S: h.s})
+	h.w.log = append(h.w.log, logEnt{Kind: "cleanup", S: h.s, Op: probePhase()})
 	h.w.mu.Unlock()
+	probePoint("cleanup", h.s)
 }
 
 type rootObj struct{ w *world }
@@ -187,6 +213,7 @@ func (so *subObj) Resolve(field *ggql.Field, args map[string]interface{}) (inter
 type evResolver struct{ vals map[string]TV }
 
 func (e *evResolver) Resolve(field *ggql.Field, args map[string]interface{}) (interface{}, error) {
+	probePoint("resolve", 0)
 	tv, ok := e.vals[field.Name]
 	if !ok {
 		return nil, fmt.Errorf("no field %s", field.Name)
@@ -309,6 +336,23 @@ type Block struct {
 	Sent    [][]interface{} `json:"sent,omitempty"`
 	Err     *bool           `json:"err,omitempty"`
 	Reg     []int           `json:"reg"`
+	Seen    *bool           `json:"seen,omitempty"` // subret: the request's critical section was seen
+	NoReg   bool            `json:"-"`              // the registry was not observed with this record
+}
+
+// MarshalJSON leaves reg out where the registry was not observed (start and return of a call).
+func (b Block) MarshalJSON() ([]byte, error) {
+	type plain Block
+	js, err := json.Marshal(plain(b))
+	if err != nil || !b.NoReg {
+		return js, err
+	}
+	var m map[string]interface{}
+	if err = json.Unmarshal(js, &m); err != nil {
+		return nil, err
+	}
+	delete(m, "reg")
+	return json.Marshal(m)
 }
 
 type Vector struct {
@@ -360,7 +404,9 @@ func hook(point string, ref interface{}) {
 		p := sc.current
 		sc.arrive <- arrival{p: p, point: point}
 		<-sc.resume[p]
-	default: // in-lock points: the registry lock must be held here
+	case "sub.locked", "unsub.locked", "pub.locked1", "pub.locked2":
+		// the registry's own in-lock points: they mark the end of a critical section, so the lock is held here.
+		// (The points of other families - a resolver at work on an event, say - are not the registry's business.)
 		if !sc.w.root.VerifSubLockHeld() {
 			sc.lockBad = append(sc.lockBad, point)
 		}
@@ -934,7 +980,15 @@ type curOp struct {
 
 var activeStress *stressLog
 
-func (st *stressLog) begin(p int, o op) { st.cur.Store(goid(), &curOp{p: p, o: o, idx: -1, pub: -1}) }
+func (st *stressLog) begin(p int, o op) {
+	st.cur.Store(goid(), &curOp{p: p, o: o, idx: -1, pub: -1})
+	if o.kind == "sub" {
+		// a subscription request is also recorded by its start and its return (see RegistryTraceCalls.tla)
+		st.w.mu.Lock()
+		st.events = append(st.events, Block{P: p, B: "subcall", S: o.s, NoReg: true})
+		st.w.mu.Unlock()
+	}
+}
 
 // end patches the return values of the finished call into its events. It runs
 // outside the lock, so it takes the harness' own mutex (w.mu), which the hooks
@@ -949,9 +1003,9 @@ func (st *stressLog) end(p int, cnt int, failed bool) {
 		if failed {
 			st.problems = append(st.problems, fmt.Sprintf("subscription request for %d returned errors", co.o.s))
 		}
-		if co.idx < 0 {
-			st.problems = append(st.problems, fmt.Sprintf("subscribe(%d) returned without passing its in-lock point", co.o.s))
-		}
+		// without an in-lock point seen the registration is judged as a step somewhere between start and return
+		seen := co.idx >= 0
+		st.events = append(st.events, Block{P: p, B: "subret", S: co.o.s, Seen: &seen, NoReg: true})
 	case "unsub":
 		if co.idx < 0 {
 			st.problems = append(st.problems, "unsubscribe returned without passing its in-lock point")
@@ -1230,6 +1284,8 @@ func main() {
 		cmdStress(os.Args[2:])
 	case "race":
 		cmdRace(os.Args[2:])
+	case "probe":
+		cmdProbe(os.Args[2:])
 	default:
 		vh.Die("unknown mode %s", os.Args[1])
 	}
